@@ -84,7 +84,7 @@ def check(res):
             continue
         for l in outl:
             if l.startswith(("CHANGED", "MOVED")):
-                m = re.match(r"(\w+) step=(\d+) node=(\d+) made-by=(\S+?)\((.*?)\)", l)
+                m = re.match(r"(\w+) step=(\d+) node=(\d+) made-by=(.*?)\(([^()]*)\)(?: before=|$)", l)
                 k = "%s:%s" % (m.group(1).lower(), m.group(4)) if m else l[:40]
                 if k not in keys and len(keys) < 10:
                     keys.add(k)
